@@ -132,3 +132,19 @@ sord = _sh.sym_ord
 sstr = _sh.sym_str
 srepr = _sh.sym_repr
 sint = _sh.sym_int
+
+
+def b_not(x):
+    return (not x) if isinstance(x, bool) else ~x
+
+
+def b_and(x, y):
+    if isinstance(x, bool) and isinstance(y, bool):
+        return x and y
+    return x & y
+
+
+def b_or(x, y):
+    if isinstance(x, bool) and isinstance(y, bool):
+        return x or y
+    return x | y
